@@ -532,6 +532,16 @@ func hostileRR(t *rapid.T) ([]byte, string) {
 	case 2: // structured hostile content for the container types
 		switch typ {
 		case wm.TOPT:
+			if rapid.IntRange(0, 2).Draw(t, "short-but-consistent") != 0 {
+				// truthful lengths, but option bodies shorter (or longer) than their own format wants
+				for i := rapid.IntRange(1, 3).Draw(t, "nopt"); i > 0; i-- {
+					code := rapid.IntRange(0, 21).Draw(t, "code")
+					body := gen.Bytes(t, rapid.IntRange(0, 20).Draw(t, "bl"), false)
+					rd = append(rd, 0, byte(code), 0, byte(len(body)))
+					rd = append(rd, body...)
+				}
+				break
+			}
 			rd = []byte{0, byte(rapid.IntRange(0, 20).Draw(t, "code")), byte(rapid.IntRange(0, 255).Draw(t, "lh")), byte(rapid.IntRange(0, 255).Draw(t, "ll"))}
 			rd = append(rd, gen.Bytes(t, rapid.IntRange(0, 20).Draw(t, "n"), false)...)
 		case wm.TSVCB, wm.THTTPS:
@@ -682,7 +692,30 @@ func genNameInput(t *rapid.T) wireCase {
 	}
 }
 
+// every EDNS0 option code and SvcParam key x every body length 0..24 with truthful lengths: the
+// per-option / per-parameter decoders must cope with a body of any length
+func eachContainerLength(emit func(wireCase)) {
+	for _, fill := range []byte{0x00, 0x01, 0xff, 0x41} {
+		for code := 0; code <= 24; code++ {
+			for l := 0; l <= 24; l++ {
+				body := bytes.Repeat([]byte{fill}, l)
+				opt := append([]byte{0, byte(code), 0, byte(l)}, body...)
+				rr := append([]byte{0, 0, 41, 4, 208, 0, 0, 0, 0, byte(len(opt) >> 8), byte(len(opt))}, opt...)
+				emit(wireCase{Input: append([]byte{0, 1, 0x81, 0x80, 0, 0, 0, 0, 0, 0, 0, 1}, rr...), Kind: fmt.Sprintf("opt-code-%d-len", code), Valid: true})
+				if code <= 10 {
+					par := append([]byte{0, 1, 0, 0, byte(code), 0, byte(l)}, body...)
+					for _, typ := range []byte{64, 65} {
+						rr := append([]byte{1, 'x', 0, 0, typ, 0, 1, 0, 0, 0, 5, byte(len(par) >> 8), byte(len(par))}, par...)
+						emit(wireCase{Input: append([]byte{0, 1, 0x81, 0x80, 0, 0, 0, 1, 0, 0, 0, 0}, rr...), Kind: fmt.Sprintf("svcparam-%d-len", code), Valid: true})
+					}
+				}
+			}
+		}
+	}
+}
+
 func init() {
+	pbt.RegisterEnum(pbt.Enum[wireCase]{Name: "option-and-param-body-lengths", Exhaustive: true, Each: eachContainerLength, Check: checkMsg})
 	pbt.Register(pbt.Sub[wireCase]{Name: "msg-unpack", Weight: 40, Gen: genMsgInput, Check: checkMsg})
 	pbt.Register(pbt.Sub[wireCase]{Name: "rr-unpack", Weight: 30, Gen: genRRInput, Check: checkRR})
 	pbt.Register(pbt.Sub[wireCase]{Name: "name-unpack", Weight: 30, Gen: genNameInput, Check: checkName})
